@@ -168,6 +168,85 @@ def crash_batch(acc, batch):
             followups(acc, w1, base, case, meta, init_hash_names)
 
 
+def followups_local(acc, w1, case, meta, init_hash_names):
+    """(a), (b), (d) for the local backend (the pool's own table is the truth about accepted tasks)."""
+    def viol(what, observed, **sig):
+        acc.violation(sig=dict(what=what, backend="local", **{k: v for k, v in case.items() if k in ("kind", "fault", "event", "phase")}, **sig), case=dict(meta=meta, **case), observed=observed,
+                      msg=f"[{meta['wf']}/local/{meta['init']}] interruption {json.dumps(case)}: {what}: {json.dumps(observed, default=str)[:500]}")
+
+    tasks = w1.pool["summary"]["tasks"]
+    active_before = {t["name"] for t in tasks if t["state"] in ("SUBMITTED", "RUNNING")}
+    accepted = {h[2] for h in w1.pool["summary"].get("history", [])}
+    rec = w1.hashes if isinstance(w1.hashes, dict) else {}
+    bad = sorted(n for n in rec if n not in accepted and n not in init_hash_names)
+    if bad:
+        viol("spec hash recorded for a target the scheduler never accepted", dict(records=sorted(rec), accepted=sorted(accepted)))
+    with W.Session(w1) as s:
+        rs = s.gwf(["status"])
+    if rs.exit_code != 0 or rs.crashed():
+        viol("the next `gwf status` does not start normally", dict(exit=rs.exit_code, exc=rs.exc, err=rs.err_summary()), cmd="status")
+        return
+    with W.Session(w1) as s:
+        rr = s.gwf(["run"])
+        w2 = s.snapshot()
+    acc.extra["invocations"] += 2
+    if rr.exit_code != 0 or rr.crashed():
+        viol("the next `gwf run` does not start normally", dict(exit=rr.exit_code, exc=rr.exc, err=rr.err_summary()), cmd="run")
+        return
+    n = len(w1.pool["summary"].get("history", []))
+    subs = [h[2] for h in w2.pool["summary"].get("history", [])[n:]]
+    dup = sorted(set(subs) & active_before)
+    if dup:
+        tracked_now = (w1.tracked or {}).get("local") or {}
+        hist = w1.pool["summary"].get("history", [])
+        last = hist[-1] if hist else None
+        window = "other"
+        if (case.get("kind") == "crash" or case.get("fault") == "response-lost") and last is not None and dup == [last[2]] and tracked_now.get(last[2]) != last[1]:
+            window = "last-accepted-job-not-yet-recorded"
+        viol("second job submitted for a target whose accepted job is still pending/running", dict(duplicated=dup, submitted=subs, tracked=tracked_now, pool=tasks), n=len(dup), window=window)
+    acc.case(key=None, outcome=f"local followup submitted={len(subs)} dup={len(dup)}", nontrivial=False)
+
+
+def local_batch(acc, batch):
+    for meta in batch:
+        base = CW.init_world(meta["wf"], "local", hashing=True)
+        if meta["init"] == "inflight":
+            base, r = CW.apply_action(base, ("gwf", ["run", base.wf.names()[0]]))
+        base.normalize()
+        init_hash_names = set(base.hashes or {})
+        with W.Session(base) as s:
+            s.gwf(["run"])
+            nreq = s.live.req_count
+        # faults: the connection breaks at the k-th request
+        for k, fk in [(k, fk) for k in range(nreq) for fk in ("connection-reset", "response-lost")]:
+            case = dict(kind="fault", idx=k, fault=fk)
+            with W.Session(base) as s:
+                if fk == "connection-reset":
+                    s.live.fault_at = k
+                else:
+                    s.live.lost_reply_at = k
+                r = s.gwf(["run"])
+                w1 = s.snapshot()
+            acc.extra["invocations"] += 1
+            acc.case(key=json.dumps(dict(meta=meta, **case), sort_keys=True), outcome=f"local fault exit={r.exit_code}", sample=dict(meta=meta, **case))
+            followups_local(acc, w1.normalize(), case, meta, init_hash_names)
+        # crash snapshots around every request and every state-file write
+        snaps = []
+        with W.Session(base) as s:
+            s.live.hook = lambda phase, i, line: snaps.append((dict(kind="crash", event="request", phase=phase, idx=i), s.snapshot()))
+            s.file_hook = lambda event, path: snaps.append((dict(kind="crash", event="file-" + event, idx=len(snaps), file=path.rsplit("/", 1)[-1]), s.snapshot()))
+            s.gwf(["run"])
+        seen = set()
+        for case, w1 in snaps:
+            w1.normalize()
+            k = json.dumps(dict(case, idx=0), sort_keys=True) + W.sha1(json.dumps([w1.semantic(), w1.pool["summary"]["tasks"]], sort_keys=True, default=str))
+            acc.case(key=json.dumps(dict(meta=meta, **case), sort_keys=True), outcome=f"local crash {case['event']}", sample=dict(meta=meta, **case))
+            if k in seen:
+                continue
+            seen.add(k)
+            followups_local(acc, w1, case, meta, init_hash_names)
+
+
 def scenarios(quick):
     out = []
     for wf in ("chain", "fork"):
@@ -189,6 +268,7 @@ def run(ctx):
     sc = scenarios(ctx.tier == "quick")
     ctx.pmap(me, "faults_batch", sc, chunk=1)
     ctx.pmap(me, "crash_batch", sc, chunk=1)
+    ctx.pmap(me, "local_batch", [dict(wf=wf, backend="local", init=init) for wf in ("chain", "fork") for init in ("fresh", "inflight")], chunk=1)
     ctx.rule = ("case = (scenario, interaction index, fault kind) or (scenario, crash point: before/after a scheduler command, open/write/close of a state file); "
                 "each followed by `gwf status` and `gwf run` on the resulting state")
     ctx.bound = dict(scenarios=len(sc), fault_kinds=list(FAULT_KINDS), crash_points="before/after every scheduler command; open, every write, close of every state-file write")
@@ -200,6 +280,11 @@ def replay(case):
 
     acc = Acc()
     meta = case["meta"]
+    if meta.get("backend") == "local":
+        a2 = Acc()
+        local_batch(a2, [meta])
+        keys = ("kind", "fault", "event", "phase", "idx")
+        return [v for v in a2.violations if all(v["case"].get(k) == case.get(k) for k in keys if k in case)]
     if case["kind"] == "fault":
         a2 = Acc()
         faults_batch(a2, [meta])
